@@ -19,7 +19,11 @@ independent copy of the output scope's Serialize gives for the handler's value. 
 quantities with units (int and float): rejected quantities whose schema error has the units parser's
 BadArgumentError among its causes must still fail as InvalidInputError (classification: the returned error's own
 type, else errors.As with InvalidInputError / InvalidOutputError before BadArgumentError).  A third, all-optional
-map-based output ("info") serves the non-conforming behaviour "declared ID, nil data".  The orchestrator hands
+map-based output ("info") serves the non-conforming behaviour "declared ID, nil data".
+Step s0 (StepsMC: ShortSteps) has input and signal data objects with EXACTLY ONE property, in one of four shapes
+per session (struct-mapped string, map-based int, struct-mapped / map-based nested single-property object): the raw
+input class "vs" is a bare non-map value, which the schema accepts as shorthand for the object; the first call on
+s0 in a schedule decides the session's shape.  The orchestrator hands
 the concrete forms of each raw-input class and handler behaviour out round-robin, so every form in the harness's
 tables is exercised.
 """
@@ -73,8 +77,9 @@ def shape(case):
     return "conc" if conc else "seq"
 
 
-def call_key(c, mapsteps=()):
-    st = "unknown" if c["step"] == "nostep" else ("map" if c["step"] in mapsteps else "known")
+def call_key(c, mapsteps=(), shortsteps=()):
+    st = "unknown" if c["step"] == "nostep" else ("map" if c["step"] in mapsteps else
+                                                  "single" if c["step"] in shortsteps else "known")
     if c["kind"] == "step":
         return "step:%s:%s:%s" % (st, c["input"], c["beh"])
     return "signal:%s:%s:%s" % (st, c["sig"], c["input"])
@@ -86,8 +91,14 @@ def assign_variants(ctx, cases, counters):
     cases.sort(key=lambda c: json.dumps(c, sort_keys=True))
     for case in cases:
         vs = []
+        first_short = True
         for c in case["calls"]:
-            k = call_key(c, case.get("mapsteps", ()))
+            k = call_key(c, case.get("mapsteps", ()), case.get("shortsteps", ()))
+            if c["step"] in case.get("shortsteps", ()):
+                # the first call on a single-property step picks among the forms of ALL shapes (and so decides the
+                # session's shape), later ones among the forms of that shape: counted separately
+                k += ":first" if first_short else ":later"
+                first_short = False
             vs.append(counters.setdefault(k, ctx.seed % 5040))
             counters[k] += 1
         case["variants"] = vs
@@ -166,7 +177,8 @@ def consume(ctx, cases, results, counts):
             counts["timeouts"] += r.get("timeouts", 0)
             same = len({(c["step"], c["run"]) for c in case["calls"]}) < len(case["calls"])
             ctx.distinct.add("%s/%s/%s" % (sh, "samekey" if same else "diffkey",
-                                           "|".join(sorted(call_key(c, case.get("mapsteps", ())) for c in case["calls"]))))
+                                           "|".join(sorted(call_key(c, case.get("mapsteps", ()), case.get("shortsteps", ()))
+                                                           for c in case["calls"]))))
         for m in r.get("mismatches", []):
             sig = signature(m)
             if m.get("drift"):
@@ -267,7 +279,8 @@ def run(ctx):
                 "ok/second output/undeclared ID/non-conforming data x step with/without initializer x input scope "
                 "struct-mapped/map-based, the map-based one also with raw inputs that omit a defaulted property or use "
                 "a representation accepted by lenient conversion, and with handler output values whose in-memory form "
-                "differs from the serialized form of its map-based output scope) plus the order "
+                "differs from the serialized form of its map-based output scope; one step with single-property input "
+                "and signal data objects called with the map spelling and with bare values in the shorthand) plus the order "
                 "of releases and arrivals at the gates (call begin, initializer, handler, return); distinct = "
                 "distinct (sequential|concurrent, same|different (step,run), multiset of call classes); non-trivial = "
                 "all (no default configuration exists); random sessions add distinct (kind, situation, behaviour"
@@ -315,6 +328,7 @@ def run(ctx):
         ctx.sample(dict(trace_head=trace[:6]))
     ctx.extra.update(input_and_output_forms_exercised_by_schedules=nforms,
                      raw_input_forms_of_the_map_based_step=len([f for f in counts["forms"] if f.startswith("map/")]),
+                     raw_input_forms_of_the_single_property_step=len([f for f in counts["forms"] if f.startswith("short/")]),
                      handler_output_forms_of_the_map_based_step=len([f for f in counts["forms"] if f.startswith("mapout/")]),
                      schedules_replayed=nvec, schedules_sequential=counts["seq"], schedules_concurrent=counts["conc"],
                      schedules_followed_exactly=counts["followed"],
